@@ -495,6 +495,7 @@ class Interp:
         self.havoc_reads = []
         self.branches = 0
         self.arms = 0
+        self.drop_hooks = {}      # tag -> callable(interp, value): destructor models of environment objects
         self.max_steps = max_steps
         from . import lib
         self.lib = lib.Library(self)
@@ -882,6 +883,13 @@ class Interp:
             elif k == 'return':
                 return 'return'
             elif k == 'drop':
+                if self.drop_hooks:
+                    try:
+                        dv = self.load(fr, t[1])
+                    except Unsupported:
+                        dv = None
+                    if type(dv) is L and dv.tag in self.drop_hooks:
+                        self.drop_hooks[dv.tag](self, dv)
                 bb = t[2]
             elif k == 'unreachable':
                 if not self.pc:
